@@ -81,6 +81,203 @@ theorem acquired_clean_fixed (c : Conn P) (k : Key) (j now ka : Nat)
         exact h1.2
   · split at h <;> simp at h
 
+/-! ## all histories of one connection -/
+
+theorem shouldCloseProp_false_empty (c : Conn P) (h : c.shouldCloseProp = false) : c.buffer = [] ∧ c.tail = [] := by
+  unfold Conn.shouldCloseProp at h
+  simp at h
+  exact ⟨h.1.2, h.2⟩
+
+theorem setResponseParams_clean (c : Conn P) (now : Nat) (fc skip : Bool) (h : c.tail = []) :
+    (c.setResponseParams now fc skip).1 =
+      { c with skip := skip, parser := some (P.init skip), ptags := [], cur := none, tailTags := [] } := by
+  unfold Conn.setResponseParams
+  simp [h]
+
+/-- head-provenance invariant of the single-connection machine, relative to the ghost flag
+"never handed out with a non-empty queue or tail" -/
+def HInv (s : CS P) : Prop :=
+  s.dirtyAcq = false → OwnInv s.c ∧ ∀ h ∈ s.heads, ∀ t ∈ h.2, t = some h.1
+
+theorem dirtyAcq_mono (g : CCfg) (s : CS P) (op : COp) (h : (cstep g s op).dirtyAcq = false) : s.dirtyAcq = false := by
+  cases op with
+  | acquire k j skip =>
+    simp only [cstep, cAcquire] at h
+    split at h
+    · cases hd : s.dirtyAcq
+      · rfl
+      · simp [hd] at h
+    · exact h
+  | recv d => simp only [cstep] at h; split at h <;> exact h
+  | pop => simp only [cstep] at h; split at h <;> exact h
+  | release e => simp only [cstep] at h; split at h <;> exact h
+  | lost os => exact h
+  | tick d => exact h
+
+theorem HInv_step (g : CCfg) (s : CS P) (op : COp) (hs : HInv s) : HInv (cstep g s op) := by
+  intro hd
+  obtain ⟨ho, hh⟩ := hs (dirtyAcq_mono g s op hd)
+  cases op with
+  | acquire k j skip =>
+    simp only [cstep, cAcquire] at hd ⊢
+    split
+    · next hr =>
+      rw [if_pos hr] at hd
+      have hd' : (s.dirtyAcq || !s.c.buffer.isEmpty || !s.c.tail.isEmpty) = false := hd
+      have hb : s.c.buffer = [] := by
+        cases hbb : s.c.buffer with
+        | nil => rfl
+        | cons a t => simp [hbb] at hd'
+      have ht : s.c.tail = [] := by
+        cases htt : s.c.tail with
+        | nil => rfl
+        | cons a t => simp [htt] at hd'
+      refine ⟨?_, hh⟩
+      -- the connection that is handed out has an empty queue and tail, and gets a fresh parser
+      have hclean := setResponseParams_clean ({ s.c with pooled := none, owner := some j } : Conn P)
+        s.now g.forceClose skip ht
+      show OwnInv ((acqResult g s.c k j s.now).1.setResponseParams s.now g.forceClose skip).1
+      rw [acqResult_ok g s.c k j s.now hr, hclean]
+      intro j' _
+      exact ⟨by simp, by simp, by simp [hb]⟩
+    · next hr =>
+      have hr' : (acqResult g s.c k j s.now).2 = false := by simpa using hr
+      exact ⟨ho.frame (acqResult_fail g s.c k j s.now hr'), hh⟩
+  | recv d =>
+    simp only [cstep]
+    split
+    · exact ⟨ownInv_dataReceived _ _ _ _ ho, hh⟩
+    · exact ⟨ho, hh⟩
+  | pop =>
+    simp only [cstep]
+    split
+    · next j q c' hj hp =>
+      unfold Conn.popHead at hp
+      split at hp
+      · next q0 rest hb =>
+        simp at hp
+        obtain ⟨hq, hc'⟩ := hp
+        subst hq; subst hc'
+        obtain ⟨a1, a2, a3⟩ := ho j hj
+        have hin : OwnInv ({ s.c with buffer := rest } : Conn P) := by
+          intro j' hj'
+          obtain ⟨b1, b2, b3⟩ := ho j' hj'
+          refine ⟨b1, b2, ?_⟩
+          intro q hq
+          exact b3 q (by rw [hb]; exact List.mem_cons_of_mem _ hq)
+        refine ⟨hin.frame (frame_onEof _ _ _ _), ?_⟩
+        intro h hmem
+        simp only [List.mem_append, List.mem_singleton] at hmem
+        rcases hmem with hmem | hmem
+        · exact hh h hmem
+        · rw [hmem]; exact a3 q0 (by rw [hb]; exact List.mem_cons_self)
+      · simp at hp
+    · exact ⟨ho, hh⟩
+  | release e =>
+    simp only [cstep]
+    split
+    · exact ⟨ho.frame (frame_release _ _ _ _).1, hh⟩
+    · exact ⟨ho, hh⟩
+  | lost os =>
+    simp only [cstep]
+    refine ⟨?_, hh⟩
+    unfold Conn.connectionLost
+    split
+    · exact ho
+    · exact ho.frame (frame_lostCore _ _)
+  | tick d => exact ⟨ho, hh⟩
+
+theorem HInv_run (g : CCfg) (ops : List COp) (s : CS P) (hs : HInv s) : HInv (crun g s ops) := by
+  induction ops generalizing s with
+  | nil => exact hs
+  | cons op rest ih => exact ih _ (HInv_step g s op hs)
+
+/-- a connection as `_create_connection` returns it (bytes may already have arrived on it:
+they sit in `_tail`, tagged "nobody") -/
+def CS.fresh (k : Key) (early : Bytes) : CS P :=
+  { c := if early.isEmpty then { key := k }
+         else { key := k, tail := early, tailTags := [none], stale := true } }
+
+theorem HInv_fresh (k : Key) (early : Bytes) : HInv (CS.fresh (P := P) k early) := by
+  intro _
+  refine ⟨?_, by simp [CS.fresh]⟩
+  intro j hj
+  unfold CS.fresh at hj
+  split at hj <;> simp at hj
+
+/-- **response heads from own bytes — unchanged code, `_partial`.**  For every history of
+acquire / receive / pop / release / close / loss / time steps on one connection, with any
+parser and any bytes: if the connection was never handed out at a moment when its message
+queue or its tail buffer was non-empty (ghost flag `dirtyAcq`), then every response head a
+caller was given on it was produced by a parser that, up to then, had consumed only chunks
+that arrived while that caller's exchange held the connection.
+Missing for the full statement: the hypothesis is false on the unchanged code
+(`cex_unsolicited_while_idle`, `cex_surplus_same_read`, `cex_bytes_before_first_request`);
+body streams are covered by the ghost comparison of the correspondence run, not by this
+induction. -/
+theorem own_bytes_conn_partial (g : CCfg) (k : Key) (early : Bytes) (ops : List COp)
+    (hclean : (crun (P := P) g (CS.fresh k early) ops).dirtyAcq = false) :
+    ∀ h ∈ (crun (P := P) g (CS.fresh k early) ops).heads, ∀ t ∈ h.2, t = some h.1 :=
+  (HInv_run g ops _ (HInv_fresh k early) hclean).2
+
+theorem acqResult_fixed_clean (g : CCfg) (hg : g.fix = true) (c : Conn P) (k : Key) (j now : Nat)
+    (h : (acqResult g c k j now).2 = true) : c.buffer = [] ∧ c.tail = [] := by
+  unfold acqResult at h
+  split at h
+  · have := acquired_clean_fixed c k j now g.keepalive (by rw [hg] at h; exact h)
+    exact ⟨this.2.2.1, this.2.2.2⟩
+  · split at h
+    · next hf =>
+      simp [hg] at hf
+      exact shouldCloseProp_false_empty _ hf.2
+    · simp at h
+
+theorem dirtyAcq_fixed (g : CCfg) (hg : g.fix = true) (s : CS P) (op : COp) (h : s.dirtyAcq = false) :
+    (cstep g s op).dirtyAcq = false := by
+  cases op with
+  | acquire k j skip =>
+    simp only [cstep, cAcquire]
+    split
+    · next hr =>
+      have := acqResult_fixed_clean g hg s.c k j s.now hr
+      simp [h, this.1, this.2]
+    · exact h
+  | recv d => simp only [cstep]; split <;> exact h
+  | pop => simp only [cstep]; split <;> exact h
+  | release e => simp only [cstep]; split <;> exact h
+  | lost os => exact h
+  | tick d => exact h
+
+theorem dirtyAcq_fixed_run (g : CCfg) (hg : g.fix = true) (ops : List COp) (s : CS P) (h : s.dirtyAcq = false) :
+    (crun g s ops).dirtyAcq = false := by
+  induction ops generalizing s with
+  | nil => exact h
+  | cons op rest ih => exact ih _ (dirtyAcq_fixed g hg s op h)
+
+/-- **response heads from own bytes — with the candidate repair, all histories.**  If `_get`
+re-checks `should_close` (and a new connection that already needs closing is refused), then
+for every history on one connection, every parser and all bytes — including bytes before the
+first request, while idle, and beyond the end of a response — every response head handed to
+a caller stems only from chunks that arrived while that caller's exchange held the
+connection. -/
+theorem own_bytes_conn (g : CCfg) (hg : g.fix = true) (k : Key) (early : Bytes) (ops : List COp) :
+    ∀ h ∈ (crun (P := P) g (CS.fresh k early) ops).heads, ∀ t ∈ h.2, t = some h.1 :=
+  own_bytes_conn_partial g k early ops (dirtyAcq_fixed_run g hg ops _ (by unfold CS.fresh; split <;> rfl))
+
+/-- non-vacuity: a history with two exchanges on one reused connection satisfies the
+hypothesis of `own_bytes_conn_partial` and delivers two heads -/
+example :
+    let s := crun (P := toyParser) { fix := false } (CS.fresh k0 [])
+      [.acquire k0 0 false, .recv [4], .pop, .tick 1, .acquire k0 1 false, .recv [1, 2], .pop, .recv [3]]
+    s.dirtyAcq = false ∧ s.heads.length = 2 ∧ s.c.pooled.isSome = true := by decide +kernel
+
+/-- …and the unchanged code violates it on the single-connection machine as well: an idle
+arrival makes the next acquisition dirty and the head delivered to exchange 1 foreign -/
+example :
+    let s := crun (P := toyParser) { fix := false } (CS.fresh k0 [])
+      [.acquire k0 0 false, .recv [4], .pop, .recv [4], .acquire k0 1 false, .pop]
+    s.dirtyAcq = true ∧ s.heads.getLast? = some (1, [some 0, none]) := by decide +kernel
+
 /-- `BaseConnector._get`: whatever entry the loop over the pool returns for a request with key
 `k` by exchange `j` was opened under exactly `k`, and is now held by `j`. -/
 theorem getLoop_same_key (l : List Nat) (w w' : World P) (k : Key) (j c : Nat)
